@@ -79,10 +79,17 @@ pub struct Client {
     pub wire: Option<Arc<std::sync::Mutex<Vec<Vec<u8>>>>>,
 }
 
+/// typed capture of every wire message (type name, protobuf bytes) for the `wire` domain (C14 / C15)
+pub static WIRE_TYPED_ON: std::sync::atomic::AtomicBool = std::sync::atomic::AtomicBool::new(false);
+pub static WIRE_TYPED: std::sync::Mutex<Vec<(String, Vec<u8>)>> = std::sync::Mutex::new(Vec::new());
+
 impl Client {
     async fn tap<T: sos_protocol::WireEncodeDecode + Clone + Send + 'static>(&self, v: &T) {
-        if let Some(w) = &self.wire {
-            if let Ok(b) = v.clone().encode().await { w.lock().unwrap().push(b.to_vec()); }
+        let typed = WIRE_TYPED_ON.load(std::sync::atomic::Ordering::Relaxed);
+        if self.wire.is_none() && !typed { return; }
+        if let Ok(b) = v.clone().encode().await {
+            if typed { let n = std::any::type_name::<T>().rsplit("::").next().unwrap_or("?").to_string(); let mut t = WIRE_TYPED.lock().unwrap(); if t.len() < 20_000 { t.push((n, b.to_vec())); } }
+            if let Some(w) = &self.wire { w.lock().unwrap().push(b.to_vec()); }
         }
     }
     fn tap_create_set(&self, cs: &CreateSet) {
